@@ -169,6 +169,15 @@ func runMirrorScript(id string, variant int, repl string, steps []mirrorStep, w 
 			fl = append(fl, k)
 		}
 		o["failed"] = sorted(fl)
+		// replicas whose failing call was the operation's own call (not a copy made to repair / synchronise)
+		direct := []string{}
+		for _, c := range calls {
+			own := map[string]bool{"Get": c.Op == "Get" || c.Op == "GetFromComposite", "Put": c.Op == "Put", "Fm": c.Op == "FindMissing"}[st.Op]
+			if c.Failed && own {
+				direct = append(direct, c.Backend)
+			}
+		}
+		o["directFailed"] = sorted(direct)
 		o["a1"], o["b1"] = a.Contents(), b.Contents()
 		o["calls"] = calls
 		if o["panic"] != "" {
